@@ -122,6 +122,14 @@ pub fn materialise(c: &Case) -> Mat {
         if r.rev {
             s = model::revcomp(&s);
         }
+        // some reads are partly lower case (soft-masked): case must not matter
+        if r.start % 3 == 0 {
+            for (i, b) in s.iter_mut().enumerate() {
+                if (i + r.extra as usize) % 5 < 2 {
+                    *b = b.to_ascii_lowercase();
+                }
+            }
+        }
         let q: Vec<u8> = (0..s.len()).map(|i| 33 + qual_of(r.quals[i % r.quals.len()], c.min_qual)).collect();
         for _ in 0..r.copies.max(1) {
             reads.push((s.clone(), q.clone()));
@@ -353,7 +361,7 @@ fn post(rt: &mut Runtime) {
     }
 }
 
-const RULE: &str = "generated: genome of k+5..3k+40 bases (20% with a planted self-reverse-complement split k-mer), 2-23 reads of length k..k+30 from both strands with substitutions and N, each repeated 1..C+1 times so that counts straddle the threshold, per-base qualities from {Q-1,Q,Q,Q+1,Q+5,40}, reads split over two FASTQ files; min-count 1-6, min-qual 0-40, three quality rules, all k, both strand modes. Oracle (string model of counting): every (k-mer, middle base) whose full k-mer count (with its reverse complement, both files, passing windows only) reaches C is stored, nothing never observed at passing quality is stored, below-count extras <= max(1, 0.1% of distinct) per case and < 0.1% in aggregate; a sample where nothing reaches the count is refused. Non-trivial: a k-mer with count C or C-1 and a base with quality exactly Q and >=1 k-mer reaching the count.";
+const RULE: &str = "generated: genome of k+5..3k+40 bases (20% with a planted self-reverse-complement split k-mer), 2-23 reads of length k..k+30 from both strands with substitutions and N, a third of them partly lower case, each repeated 1..C+1 times so that counts straddle the threshold, per-base qualities from {Q-1,Q,Q,Q+1,Q+5,40}, reads split over two FASTQ files; min-count 1-6, min-qual 0-40, three quality rules, all k, both strand modes. Oracle (string model of counting): every (k-mer, middle base) whose full k-mer count (with its reverse complement, both files, passing windows only) reaches C is stored, nothing never observed at passing quality is stored, below-count extras <= max(1, 0.1% of distinct) per case and < 0.1% in aggregate; a sample where nothing reaches the count is refused. Non-trivial: a k-mer with count C or C-1 and a base with quality exactly Q and >=1 k-mer reaching the count.";
 
 fn show(c: &Case) -> serde_json::Value {
     let m = materialise(c);
